@@ -397,7 +397,7 @@ def _semantic_checks_sort(exprs_in, exprs_out, invocation):
 
 def _semantic_checks_update_at(exprs_in, exprs_out, invocation):
     expr_out = exprs_out[0]
-    if len(exprs_in) < 2:
+    if len(exprs_in) < 3:
         raise SemanticError(invocation=invocation, message=f"The operation expects at least 3 input expressions, but found {len(exprs_in)}.\n%EXPR%")
 
     all_exprs = list(exprs_in) + [expr_out]
@@ -711,7 +711,8 @@ def dot(op, **kwargs):
 
 
 def _equations_stage3_index_at(exprs_in, exprs_out, invocation, is_update):
-    if len(exprs_in) <= 1:
+    if len(exprs_in) <= (2 if is_update else 1):
+        # Not enough input expressions (tensor, coordinates and for update operations: updates) -> is reported by the semantic checks
         return []
 
     tensor_expr = exprs_in[0]
